@@ -18,11 +18,21 @@ sqrt enclosures), then
    `Check.OwnGraph.checkOwn` (sound by Props/C04Own.checkOwn_sound).  Route dearer than the certified optimum of
    its own space ⇒ kind `search-not-minimal` (the A* search failed; strict).  Route optimal in its own space but
    dearer than the geometric optimum ⇒ the known kind `not-minimal` (graph pruned for Euclidean shortest paths).
+ * A* model tie (classes that dump `as` / `oa` / `oh` / `pops`): the abstract search loop of Model/AStar.lean (Part 1:
+   PENDING / DONE keyed on (vertex, previous vertex), in-place improvement of a queued node, `ANodeCmp` order, time
+   stamps; optimal under a consistent heuristic by Props/C05AStar.search_optimal) is run on the polyline problem of
+   the dumped graph — edges in visList order, the skip rules of `search()` (edge we came along, foreign connector
+   end points, `validateBendPoint`), step cost getDist + penalty · bends of `cost()`, h = euclideanDist to the
+   target as dumped — and its DONE list is compared with the expansion order of the real search (the library's own
+   DebugHandler tap: the prevNode chain of every popped node, from which g and f are recomputed here).  A difference
+   between nodes of unequal f, a real trace that is not in non-decreasing order of f, or a different final cost is a
+   DIVERGE (the open-list discipline of the C++ is not the model's); nodes of equal f may be taken in either order.
 A rejected certificate is a DIVERGE (the harness oracle, not libavoid, is then wrong).
 -/
 import Driver.Proto
 import AdaptaVerif.Check.Potential
 import AdaptaVerif.Check.OwnGraph
+import AdaptaVerif.Model.AStar
 namespace Driver.C04
 open Driver AdaptaVerif.Num
 open AdaptaVerif.Model.Geometry (Pt area2)
@@ -106,6 +116,99 @@ def ownOptimum (c : Case) (id : Nat) (penalty : Rat) (src dst : Pt) : Except Str
   | some r => pure r
   | none => throw "own-graph certificate rejected (potential infeasible on the own search space, or witness not an admissible route of it)"
 
+/-- the polyline search problem of connector (s, t) on the dumped graph, for the abstract A* loop of Model/AStar.lean -/
+def polyProblem (ovs : Array OV) (adj : Array (List (Nat × Rat))) (hs : Array Rat) (penalty : Rat) (s t : Nat) :
+    AdaptaVerif.Model.AStar.Problem :=
+  let S := mkSpace ovs [] penalty
+  { src := s, tar := t, h0 := hs.getD s 0, eps := AdaptaVerif.Model.AStar.epsDouble,
+    succs := fun pv v => (adj.getD v []).map fun (wd : Nat × Rat) =>
+      let w := wd.1
+      if pv == some w then none                                            -- the segment we just arrived along
+      else if (ovs[w]!).prev.isNone && w != t then none                      -- a connector end point other than the target
+      else if wd.2 == 0 then none
+      else match pv with
+        | none => some { w := w, c := wd.2, h := if w == t then 0 else hs.getD w 0 }
+        | some p =>
+          if !S.ok p v w then none                                           -- validateBendPoint
+          else some { w := w, c := wd.2 + penalty * (S.bend p v w : Nat), h := if w == t then 0 else hs.getD w 0 } }
+
+/-- run the A* model for connector `id` and compare with the real search; `none` = equal (or nothing dumped) -/
+def astarTie (c : Case) (id : Nat) (penalty : Rat) : Option String × List (String × Nat) := Id.run do
+  let some al := (c.get "as").find? (fun w => nat! w[0]! == id) | return (none, [])
+  let some (ovs, _) := parseOwn c | return (some "A* tie: unparsable own-graph dump", [])
+  let n := ovs.size
+  let s := nat! al[1]!; let t := nat! al[2]!
+  if !(s < n && t < n) then return (some "A* tie: endpoints out of range", [])
+  let S0 := mkSpace ovs [] penalty
+  let mut adj : Array (List (Nat × Rat)) := Array.replicate n []
+  for l in c.get "oa" do
+    let v := nat! l[0]!; let k := nat! l[1]!
+    let mut es : List (Nat × Rat) := []
+    for i in [0:k] do
+      let some d := num? (l[3 + 2*i]?.getD "") | return (some "A* tie: unparsable edge length", [])
+      es := es ++ [(nat! (l[2 + 2*i]?.getD "0"), d)]
+    if v < n then adj := adj.set! v es
+  let some hl := (c.get "oh").find? (fun w => nat! w[0]! == id) | return (some "A* tie: no heuristic values", [])
+  let some hs := nums? (hl.extract 1 hl.size) | return (some "A* tie: unparsable heuristic values", [])
+  -- the real search: one prevNode chain per popped node; its g and f are recomputed here from the chain
+  let mut implR : List (Nat × Option Nat × Rat) := []
+  for l in c.get "pop" do
+    if nat! l[0]! != id then continue
+    let len := nat! l[1]!
+    let ch : List Int := (List.range len).map fun i => int! (l[2 + i]?.getD "-2")
+    if ch.any (· < 0) || ch.isEmpty then return (some s!"A* tie: a popped node of conn {id} is not a vertex of the dumped graph", [])
+    let chain : List Nat := ch.map Int.toNat                                    -- node first, source last
+    if chain.any (· ≥ n) then return (some "A* tie: pop chain out of range", [])
+    let fwd := chain.reverse
+    let mut g : Rat := 0
+    let mut bad := false
+    let arr := fwd.toArray
+    for i in [1:arr.size] do
+      let u := arr[i-1]!; let v := arr[i]!
+      match (adj.getD u []).find? (·.1 == v) with
+      | some (_, d) => g := g + d
+      | none => bad := true
+      if i ≥ 2 then g := g + penalty * (S0.bend arr[i-2]! u v : Nat)
+    if bad then return (some s!"A* search of conn {id}: a popped node's chain uses a move that is not an edge of the dumped graph", [])
+    let v0 := chain.head!
+    let f := g + (if v0 == t then 0 else hs.getD v0 0)
+    implR := implR ++ [(v0, chain[1]?, f)]
+  if implR.isEmpty then return (some s!"A* tie: no pop trace for conn {id}", [])
+  let impl : List (Nat × Option Nat) := implR.map fun x => (x.1, x.2.1)
+  -- A* invariant on the real trace, independent of the model run: nodes are popped in non-decreasing f order
+  -- (consistent heuristic; `ANodeCmp` treats differences up to 1e-7 as ties)
+  let fsI := implR.map (·.2.2)
+  let mono := (fsI.zip (fsI.drop 1)).all fun (a, b) => decide (a ≤ b + tol)
+  let P := polyProblem ovs adj hs penalty s t
+  let fuel := 2 * (adj.foldl (fun a l => a + l.length) 0) + 4
+  match AdaptaVerif.Model.AStar.search P fuel (AdaptaVerif.Model.AStar.init P) with
+  | .found b done =>
+    let model : List (Nat × Option Nat) := done.map fun nd => (nd.v, nd.pv)
+    let st := [("astar.run", 1), ("astar.explored", done.length)]
+    let shv := fun (v : Nat) (pv : Option Nat) => s!"{ptStr (ovs[v]!).p} via {match pv with | some p => ptStr (ovs[p]!).p | none => "-"}"
+    if !mono then
+      let k := ((fsI.zip (fsI.drop 1)).takeWhile fun (a, b) => decide (a ≤ b + tol)).length
+      let (v, pv, f) := implR[k+1]?.getD (0, none, 0)
+      return (some s!"A* search of conn {id}: nodes are not popped in order of f: pop {k+1} is {shv v pv} with f = {dec f} after a node with f = {dec (fsI[k]?.getD 0)} (the open list is not ordered; the model pops {match model[k+1]? with | some (a, b) => shv a b | none => "nothing"} there)", st)
+    if impl != model then
+      let k := ((impl.zip model).takeWhile fun (a, b) => a == b).length
+      -- a difference between nodes of (numerically) equal f is a tie the doubles of the C++ and the exact sums of the
+      -- model may break differently: not a divergence
+      let fa := (implR[k]?.map (·.2.2))
+      let fb := (done[k]?.map fun nd => nd.g + nd.h)
+      match fa, fb, implR[k]?, done[k]? with
+      | some fa, some fb, some (v, pv, _), some nd =>
+        if AdaptaVerif.Model.AStar.absR (fa - fb) ≤ tol / 1000 then return (none, st ++ [("astar.tie-stop", 1)])
+        return (some s!"A* search of conn {id}: expansion order differs from the model at pop {k} (of {impl.length} C++ / {model.length} model): C++ pops {shv v pv} (f = {dec fa}), model pops {shv nd.v nd.pv} (f = {dec fb})", st)
+      | _, _, _, _ =>
+        return (some s!"A* search of conn {id}: the real search pops {impl.length} nodes, the model {model.length}", st)
+    let gI := (implR.getLast?.map (·.2.2)).getD 0
+    if AdaptaVerif.Model.AStar.absR (gI - b.g) > tol / 1000 then
+      return (some s!"A* search of conn {id}: same expansion order but cost {dec gI} instead of the model's {dec b.g}", st)
+    return (none, st ++ [("astar.pop-trace-equal", 1)])
+  | .noPath => return (some s!"A* model of conn {id}: no path", [])
+  | .outOfFuel => return (some s!"A* model of conn {id}: out of fuel", [])
+
 def run1 (c : Case) : CaseResult := Id.run do
   if c.tag == "empty" then return { verdict := .ok, nontrivial := false }
   let some shapesI := parsePolys c "shape" | return { verdict := .diverge "unparsable shape" }
@@ -140,6 +243,12 @@ def run1 (c : Case) : CaseResult := Id.run do
     let nb := bends rt
     if rt.length > 2 then nontrivial := true
     stats := bumpStats stats s!"bends{min nb 4}" 1
+    -- A* model tie
+    match astarTie c id penalty with
+    | (some msg, st) =>
+      for (k, v) in st do stats := bumpStats stats k v
+      fails := (10, .diverge msg) :: fails
+    | (none, st) => for (k, v) in st do stats := bumpStats stats k v
     if penalty == 0 then
       let some cl := (c.get "cert").find? (fun w => nat! w[0]! == id) | return { verdict := .diverge s!"conn {id}: no certificate" }
       let some pot := nums? (cl.extract 2 cl.size) | return { verdict := .diverge s!"conn {id}: unparsable certificate" }
